@@ -152,6 +152,22 @@ def o63(ctx):
         val0 = float(np.asarray(tm.evaluate(got, env)))
         if abs(val0) > 1e-9:
             bad = ("equal orientations", val0)
+    # equal orientations at gimbal lock (theta in {0, 180}) given by two spellings of the same rotation: (a, 0, b) = (a+b, 0, 0) and
+    # (a, 180, b) = (a-b, 180, 0).  The two matrices agree up to rounding noise; the distance must still vanish
+    from scipy.spatial.transform import Rotation as _R
+    for i in range(24):
+        a_, b_ = float(rng.uniform(-180, 180)), float(rng.uniform(-180, 180))
+        th = (0.0, 180.0)[i % 2]
+        e1 = [a_, th, b_]
+        e2 = [a_ + b_, th, 0.0] if th == 0.0 else [a_ - b_, th, 0.0]
+        env = {"R1": _R.from_euler("zxz", e1, degrees=True).as_matrix(), "R2": _R.from_euler("zxz", e2, degrees=True).as_matrix()}
+        import warnings as _w
+        with _w.catch_warnings():
+            _w.simplefilter("ignore")
+            val0 = float(np.asarray(tm.evaluate(got, env)))
+        ctx.count(1)
+        if not (abs(val0) <= 1e-6):
+            bad = (f"equal orientations at gimbal lock, zxz {np.round(e1, 2).tolist()} = {np.round(e2, 2).tolist()}", val0)
     if bad:
         ctx.finding(q2, "returned in-plane angle", f"the in-plane distance must lie in [0,180] and vanish for equal orientations "
                     f"({bad[0]}: {bad[1]})", fn2, m2, extracted=tm.show(got)[:300])
